@@ -83,9 +83,13 @@ static struct reb_treecell *reb_tree_add_particle_to_cell(struct reb_simulation*
 		struct reb_particle p = particles[pt];
 		if (parent == NULL){ // The new node is a root
 			node->w = r->root_size;
-			int i = ((int)floor((p.x + r->boxsize.x/2.)/r->root_size))%r->N_root_x;
-			int j = ((int)floor((p.y + r->boxsize.y/2.)/r->root_size))%r->N_root_y;
-			int k = ((int)floor((p.z + r->boxsize.z/2.)/r->root_size))%r->N_root_z;
+			int i = (int)floor((p.x + r->boxsize.x/2.)/r->root_size);
+			int j = (int)floor((p.y + r->boxsize.y/2.)/r->root_size);
+			int k = (int)floor((p.z + r->boxsize.z/2.)/r->root_size);
+			// A particle on the upper face of the box belongs to the last root box.
+			i = i<0 ? 0 : (i>=r->N_root_x ? r->N_root_x-1 : i);
+			j = j<0 ? 0 : (j>=r->N_root_y ? r->N_root_y-1 : j);
+			k = k<0 ? 0 : (k>=r->N_root_z ? r->N_root_z-1 : k);
 			node->x = -r->boxsize.x/2.+r->root_size*(0.5+(double)i);
 			node->y = -r->boxsize.y/2.+r->root_size*(0.5+(double)j);
 			node->z = -r->boxsize.z/2.+r->root_size*(0.5+(double)k);
@@ -154,7 +158,7 @@ static int reb_tree_particle_is_inside_cell(const struct reb_simulation* const r
   * @param r REBOUND simulation to operate on
   * @param node is the pointer to a node cell
   */
-static struct reb_treecell *reb_simulation_update_tree_cell(struct reb_simulation* const r, struct reb_treecell *node){
+static struct reb_treecell *reb_simulation_update_tree_cell(struct reb_simulation* const r, struct reb_treecell *node, struct reb_particle** reinsert, int* N_reinsert, int* N_allocated_reinsert){
 	int test = -1; /**< A temporary int variable is used to store the index of an octant when it needs to be freed. */
 	if (node == NULL) {
 		return NULL;
@@ -162,7 +166,7 @@ static struct reb_treecell *reb_simulation_update_tree_cell(struct reb_simulatio
 	// Non-leaf nodes	
 	if (node->pt < 0) {
 		for (int o=0; o<8; o++) {
-			node->oct[o] = reb_simulation_update_tree_cell(r, node->oct[o]);
+			node->oct[o] = reb_simulation_update_tree_cell(r, node->oct[o], reinsert, N_reinsert, N_allocated_reinsert);
 		}
 		node->pt = 0;
 		for (int o=0; o<8; o++) {
@@ -199,7 +203,12 @@ static struct reb_treecell *reb_simulation_update_tree_cell(struct reb_simulatio
             r->particles[oldpos] = r->particles[r->N];
             r->particles[oldpos].c->pt = oldpos;
             if (!isnan(reinsertme.y)){ // Do not reinsert if flagged for removal
-                reb_simulation_add(r, reinsertme);
+                // Reinsert after the walk: this cell is still linked into the tree here.
+                if (*N_reinsert >= *N_allocated_reinsert){
+                    *N_allocated_reinsert = *N_allocated_reinsert ? *N_allocated_reinsert * 2 : 32;
+                    *reinsert = realloc(*reinsert, sizeof(struct reb_particle)*(*N_allocated_reinsert));
+                }
+                (*reinsert)[(*N_reinsert)++] = reinsertme;
             }
         }
 		free(node);
@@ -293,16 +302,23 @@ void reb_simulation_update_tree(struct reb_simulation* const r){
 	if (r->tree_root==NULL){
 		r->tree_root = calloc(r->N_root_x*r->N_root_y*r->N_root_z,sizeof(struct reb_treecell*));
 	}
+	struct reb_particle* reinsert = NULL;
+	int N_reinsert = 0;
+	int N_allocated_reinsert = 0;
 	for(int i=0;i<r->N_root;i++){
 
 #ifdef MPI
 		if (reb_communication_mpi_rootbox_is_local(r, i)==1){
 #endif // MPI
-			r->tree_root[i] = reb_simulation_update_tree_cell(r, r->tree_root[i]);
+			r->tree_root[i] = reb_simulation_update_tree_cell(r, r->tree_root[i], &reinsert, &N_reinsert, &N_allocated_reinsert);
 #ifdef MPI
 		}
 #endif // MPI
 	}
+	for(int i=0;i<N_reinsert;i++){
+		reb_simulation_add(r, reinsert[i]);
+	}
+	free(reinsert);
     r->tree_needs_update= 0;
 }
 static void reb_tree_delete_cell(struct reb_treecell* node){
